@@ -457,6 +457,9 @@ pub enum TOp {
     Advance(u64),
     Stop,
     CloseRef,
+    /// the source's WALL clock jumps (forwards or backwards, e.g. an NTP step) while its
+    /// monotonic clock does not move: a span is monotonic time, it must not notice
+    WallJump(u64),
 }
 #[derive(Clone, Debug, Serialize, Deserialize)]
 pub struct TimerCase {
@@ -496,6 +499,10 @@ pub fn check_timer(case: &TimerCase) -> CaseResult {
                 let d = Duration::from_nanos(*d);
                 clock.advance(d);
                 now += d;
+            }
+            TOp::WallJump(x) => {
+                clock.set_wall(UNIX_EPOCH + Duration::from_nanos(*x));
+                classes.push("wall-clock-jump");
             }
             TOp::Stop => {
                 let r = timer.stop();
@@ -635,7 +642,8 @@ pub fn check_ts(case: &TsCase) -> CaseResult {
         1 => {
             classes.push("source-thread-local");
             let _g = set_time_source(ts.clone());
-            (Timestamp::now(), TimestampOnClose::default())
+            // Timestamp::default() is what #[derive(Default)] entries use
+            (if case.fmt % 2 == 0 { Timestamp::now() } else { Timestamp::default() }, TimestampOnClose::default())
         }
         2 => {
             classes.push("source-runtime");
@@ -674,6 +682,18 @@ pub fn check_ts(case: &TsCase) -> CaseResult {
             inner
         }
     };
+    // closing by reference (what subfield entries do) any number of times reports the creation
+    // time, whatever the clock does in between
+    let by_ref_1 = (&creation).close();
+    clock.set_wall(UNIX_EPOCH + t0 + later / 2);
+    let by_ref_2 = (&creation).close();
+    vensure!(
+        by_ref_1.duration_since_epoch() == t0 && by_ref_2.duration_since_epoch() == t0,
+        "timestamp:creation-time",
+        "Timestamp closed by reference reports {:?} and then {:?}, the wall clock at creation was {t0:?}",
+        by_ref_1.duration_since_epoch(),
+        by_ref_2.duration_since_epoch()
+    );
     // the wall clock moves on before close
     clock.set_wall(UNIX_EPOCH + t0 + later);
     let v_creation = creation.close();
@@ -746,6 +766,7 @@ pub fn run(ctx: &mut Ctx) {
                         3 => arb_d().prop_map(TOp::Advance),
                         2 => Just(TOp::Stop),
                         2 => Just(TOp::CloseRef),
+                        1 => prop_oneof![0u64..1_000_000_000, any::<u64>()].prop_map(TOp::WallJump),
                     ],
                     0..20,
                 ),
